@@ -80,9 +80,9 @@ Proof.
   rewrite track_other; auto. intuition.
 Qed.
 
-Lemma WF_track : WF s -> WF s'.
+Lemma WF_track : dep p o j -> WF s -> WF s'.
 Proof.
-  intros W. split.
+  intros Hdep W. split.
   - rewrite track_nlen. apply W.
   - intros i x. rewrite track_srcs. destruct (Nat.eqb_spec i o) as [->|].
     + rewrite in_app_iff. intros [H|[<-|[]]]; auto. eapply wf_srclt; eauto.
@@ -101,6 +101,9 @@ Proof.
     + intros _. rewrite in_subscribe. auto.
     + intros H. rewrite in_subscribe. left. eapply wf_src_sub; eauto.
     + rewrite in_app_iff. intros [H|[<-|[]]]; [|congruence]. eapply wf_src_sub; eauto.
+    + apply W.
+  - intros i x. rewrite track_srcs. destruct (Nat.eqb_spec i o) as [->|].
+    + rewrite in_app_iff. intros [H|[<-|[]]]; auto. eapply wf_dep; eauto.
     + apply W.
 Qed.
 End Track.
@@ -230,6 +233,7 @@ Proof.
   - intros y k. rewrite clear_subs, clear_srcs.
     destruct (Nat.eqb_spec k i) as [->|Hk]; [intros []|].
     intros H. apply in_unsubscribe_other; auto. eapply wf_src_sub; eauto.
+  - intros k x. rewrite clear_srcs. destruct (Nat.eqb k i); [intros []|apply W].
 Qed.
 End Clear.
 
